@@ -129,6 +129,14 @@ fn on_panic(p: Panic, ctx: &mut Ctx, title: &str, r: &Runner, debug: bool) -> Ca
 	if debug {
 		dump(title, r);
 	}
+	if !locktime && !other_node && r.buried_tx_unburied() && std::env::var("VERIF_DEBUG_FOREIGN").is_err() {
+		// A channel transaction that had ANTI_REORG_DELAY confirmations on the chain the node was told was
+		// reorganised out (fork depth = delay, transaction in the first replaced block): the library had
+		// legitimately drawn irreversible conclusions; what it does when the chain then contradicts them (e.g. a
+		// conflicting commitment confirms) is outside the property ("reorgs deeper than the delay")
+		ctx.label("out-of-domain:panic-after-buried-tx-was-reorged-out");
+		return Ok(());
+	}
 	if (locktime || other_node) && std::env::var("VERIF_DEBUG_FOREIGN").is_err() {
 		let loc = lp.as_ref().map(|(_, l)| l.rsplit('/').next().unwrap_or("").to_string()).unwrap_or_default();
 		ctx.label(&if locktime { "foreign-failure:C07:broadcast-before-locktime-after-reorg".to_string() } else { format!("foreign-failure:C07:panic-in-unobserved-node@{}", loc) });
